@@ -69,16 +69,21 @@ func drawBatch(r *Rng, big bool) batchCfg {
 	c.Gen = r.Chance(30)
 	c.NoID = r.Chance(40)
 	if r.Chance(12) && !c.Gated {
-		// a batch larger than any plausible fixed buffer, read only after Wait
-		c.Sizes[0] = Pick(r, 257, 300, 1025)
-		outs := make([]int, c.Sizes[0])
-		for i := range outs {
-			outs[i] = Pick(r, 0, 1, 1)
-		}
-		c.Out[0] = outs
-		c.LateRead, c.NoReader, c.Purge, c.Reject = true, false, 0, 0
+		forceLate(&c, r)
 	}
 	return c
+}
+
+// forceLate: a batch larger than any plausible fixed buffer, read only after Wait
+func forceLate(c *batchCfg, r *Rng) {
+	c.Sizes[0] = Pick(r, 257, 300, 1025, 1300, 2049)
+	outs := make([]int, c.Sizes[0])
+	for i := range outs {
+		outs[i] = Pick(r, 0, 1, 1)
+	}
+	c.Out[0] = outs
+	c.Gated = false
+	c.LateRead, c.NoReader, c.Purge, c.Reject = true, false, 0, 0
 }
 
 type batchRun struct {
@@ -206,6 +211,13 @@ func epBatch(c *RunCtx, cfg batchCfg) *Result {
 				defer rwg.Done()
 				br.b.Wait()
 				br.waitRet.Store(e.Ev(fmt.Sprintf("batch%d.wait.ret", bi)))
+				// once Wait has returned every item of the batch reads Closed
+				for i := br.lo; i < br.hi; i++ {
+					if st := k.Recs[i].RefStatus(); st != "" && st != "Closed" {
+						e.Fail("C16", "not-closed-after-wait", "batch-item/"+st, fmt.Sprintf("%s: batch %d: Wait returned, item %d reads %s", cfg, bi, i, st))
+						break
+					}
+				}
 				if cfg.LateRead {
 					if br.b.Results != nil {
 						for r := range br.b.Results {
@@ -391,6 +403,9 @@ func epBatch(c *RunCtx, cfg batchCfg) *Result {
 				if anon > 0 || got["g:"] > 0 {
 					if got["g:"] != anon {
 						e.Fail("C08", "result-count", "anonymous", fmt.Sprintf("%s: batch %d delivered %d results tagged g:, %d items without id executed", cfg, bi, got["g:"], anon))
+						if got["g:"] < anon {
+							e.Fail("C07", "outcome-not-delivered", "batch", fmt.Sprintf("%s: batch %d: %d items without id executed, only %d outcomes appeared on the stream read to its end", cfg, bi, anon, got["g:"]))
+						}
 					}
 					delete(got, "g:")
 				}
@@ -401,6 +416,9 @@ func epBatch(c *RunCtx, cfg batchCfg) *Result {
 					}
 					if got[id] != 1 {
 						e.Fail("C08", "result-count", fmt.Sprint(got[id]), fmt.Sprintf("%s: batch %d delivered %d results for executed item %s (all: %v)", cfg, bi, got[id], id, got))
+						if got[id] == 0 {
+							e.Fail("C07", "outcome-not-delivered", "batch", fmt.Sprintf("%s: batch %d: item %s executed and its outcome never appeared on the batch's stream, although the stream was read to its end (%d results delivered in all)", cfg, bi, id, len(br.results)+len(br.errs)))
+						}
 					}
 					delete(got, id)
 				}
@@ -831,7 +849,7 @@ func runC08(c *RunCtx) {
 
 func runC07(c *RunCtx) {
 	// the submitted data reaches the function on adapter-backed queues too (reference payloads: struct, map, slice, pointer)
-	for _, typ := range []int{3, 4, 5, 7} {
+	for _, typ := range []int{3, 4, 5, 7, 8, 9} {
 		for variant := 0; variant < 4; variant++ {
 			for v := 0; v < c.Q(4, 40); v++ {
 				c.Program(fmt.Sprintf("fidelity/t%d/v%d/%d", typ, variant, v), func(p *Prog) {
@@ -851,6 +869,9 @@ func runC07(c *RunCtx) {
 	for v := 0; v < c.Q(32, 200); v++ {
 		c.Program(fmt.Sprintf("batch/%d", v), func(p *Prog) {
 			cfg := drawBatch(p.Rng, false)
+			if v%8 == 7 {
+				forceLate(&cfg, p.Rng)
+			}
 			p.Explore(func(pl Plan) *Result { return epBatch(c, cfg) },
 				ExploreOpts{Base: 3, K: c.Q(2, 3), Funcs: anchoredOr(c, batchFuncs), Pairs: c.Q(10, 60), MaxCases: c.Q(80, 1500)})
 		})
